@@ -283,6 +283,14 @@ def run(ctx):
             dr = fb.record(d)
             res.check(not dr["fields"], "C14-R1", "%s:no-extra-members" % d, dr["loc"], "adds no data members (slicing copy through %s loses nothing)" % base.split("::")[-1],
                       "%s adds data members %s that the slicing copy in Packet's copy constructor loses" % (d, [x["name"] for x in dr["fields"]]))
+            # ... and answers every question the way the base does: a copy is a base object (the copy constructor of Packet, setPayload and
+            # `Payload b(a)` all construct the base class), so a virtual member overridden in a derived class answers differently for the copy
+            ov = [m for m in dr["methods"] if m.get("virtual") and not (m.get("nm") or "").startswith("~") and not m.get("implicit")]
+            res.check(not ov, "C14-R1", "%s:no-overrides" % d, (ov[0].get("loc") if ov else dr["loc"]),
+                      "overrides no virtual member (a sliced copy answers every observer like the original)",
+                      "%s overrides %s: copies of a packet are constructed as plain %s objects and lose the override — the copy answers %s differently "
+                      "from the object it was copied from although type, bytes and operator== agree" %
+                      (d, ", ".join(sorted({m["nm"] + "()" for m in ov})), base.split("::")[-1], ", ".join(sorted({m["nm"] + "()" for m in ov}))))
         for fld in r["fields"]:
             t = fld["t"]
             alias = t.get("k") == "ptr" or t.get("ref") or any(w in t["s"] for w in ("string_view", "span<", "shared_ptr", "__normal_iterator"))
